@@ -423,6 +423,18 @@ class Models:
             return None, VecV(recv.n, [TupleV([IntV.const(i), x]) for i, x in enumerate(recv.elems)])
         if m == "collect":
             return None, recv
+        if m == "rev":
+            n = bvval(recv.n)
+            if n is not None:
+                return None, VecV(recv.n, list(reversed(recv.elems[:n])))
+            out = []
+            for j in range(len(recv.elems)):
+                acc = None
+                for k in range(len(recv.elems)):
+                    # out[j] = elems[n-1-j]  <=>  k + j + 1 == n
+                    acc = recv.elems[k] if acc is None else merge(Eq(recv.n, L(k + j + 1)), recv.elems[k], acc, "rev")
+                out.append(acc)
+            return None, VecV(recv.n, out)
         if m == "push":
             n = bvval(recv.n)
             if n is not None:
@@ -493,9 +505,10 @@ class Models:
         if m == "join":
             if not isinstance(args[0], StrV):
                 self.uns("join with non-string separator", node)
-            if not all(isinstance(x, StrV) for x in recv.elems):
+            if not all(isinstance(x, StrV) or x is None for x in recv.elems):
                 self.uns("join of non-strings", node)
-            return None, StrV(bstr.join([x.b for x in recv.elems], recv.n, args[0].b))
+            # None = an element slot beyond the vector's length (never selected)
+            return None, StrV(bstr.join([x.b if x is not None else bstr.EMPTY for x in recv.elems], recv.n, args[0].b))
         if m == "contains":
             return None, BoolV(Or(*[And(Ult(L(i), recv.n), val_eq(x, args[0])) for i, x in enumerate(recv.elems)]))
         return NotImplemented
